@@ -60,8 +60,6 @@ const sessionSchema = `schemas:
         crypto_envelope: acrablock
 `
 
-var sessionTables = []pgsess.TableDef{}
-
 func genSessCase(t *rapid.T) SessCase {
 	c := SessCase{Mode: rapid.SampledFrom([]string{"default", "default", "default", "strict"}).Draw(t, "mode"),
 		Level: logLevels[weighted(t, "level", 7, 2, 1)], Format: rapid.SampledFrom(logFormats).Draw(t, "format")}
@@ -74,6 +72,36 @@ func genSessCase(t *rapid.T) SessCase {
 		c.Steps = append(c.Steps, Step{Case: genStatement(t, sqlgen.PostgreSQL, genSource(t)), Ext: rapid.Bool().Draw(t, "ext")})
 	}
 	return c
+}
+
+// runStep sends one statement and collects the reply, unless the proxy reports that it gives the
+// connection up (acra-server would close it; the harness does that then).
+func runStep(s *pgsess.Session, st Step, name string) (rep *pgsess.Reply, err error, closed bool) {
+	if st.Ext {
+		err = s.SendExtended(pgsess.Ext{SQL: st.SQL, StmtName: name})
+	} else {
+		err = s.SendQuery(st.SQL)
+	}
+	if err != nil {
+		return nil, err, false
+	}
+	type result struct {
+		rep *pgsess.Reply
+		err error
+	}
+	done := make(chan result, 1)
+	go func() {
+		r, e := s.Collect()
+		done <- result{r, e}
+	}()
+	select {
+	case r := <-done:
+		return r.rep, r.err, false
+	case <-s.ProxyErrs:
+		s.HangUp()
+		r := <-done
+		return r.rep, r.err, true
+	}
 }
 
 type sessInfo struct {
@@ -117,12 +145,15 @@ func CheckSession(c SessCase) (vs hx.Vs, info sessInfo) {
 	if c.Mode == "strict" {
 		mode = sqlparser.ModeStrict
 	}
-	s, err := pgsess.Start(pgsess.Config{SchemaYAML: sessionSchema, KeyStore: w.KS, ClientID: w.Alice, Censor: censor, ParserMode: mode, Timeout: 5 * time.Second})
+	start := func() (*pgsess.Session, error) {
+		return pgsess.Start(pgsess.Config{SchemaYAML: sessionSchema, KeyStore: w.KS, ClientID: w.Alice, Censor: censor, ParserMode: mode, Timeout: 5 * time.Second})
+	}
+	s, err := start()
 	if err != nil {
 		vs.Add("harness:start", "%v", err)
 		return vs, info
 	}
-	defer s.Close()
+	defer func() { s.Close() }()
 	for i, st := range c.Steps {
 		p := info.steps[i]
 		all := make([]located, len(st.Markers))
@@ -130,14 +161,28 @@ func CheckSession(c SessCase) (vs hx.Vs, info sessInfo) {
 			all[j] = located{Marker: m}
 		}
 		me, mo := lc.mark()
-		var rep *pgsess.Reply
-		var err error
 		proto := "simple"
 		if st.Ext {
 			proto = "extended"
-			rep, err = s.Extended(pgsess.Ext{SQL: st.SQL, StmtName: fmt.Sprintf("s%d", i)})
-		} else {
-			rep, err = s.Simple(st.SQL)
+		}
+		rep, err, closed := runStep(s, st, fmt.Sprintf("s%d", i))
+		if closed {
+			// one of the proxy's loops gave up (acra-server closes the connection then): the session is over,
+			// what was logged on the way counts
+			info.classes["proxy-closed-session"] = true
+			info.classes["proxy-closed-session:"+proto] = true
+			n := len(vs)
+			checkEntries(&vs, "session-log", lc.since(me, mo), p, all)
+			if len(vs) > n {
+				vs[len(vs)-1].Msg = fmt.Sprintf("step %d (%s protocol, parser mode %s): %s", i, proto, c.Mode, vs[len(vs)-1].Msg)
+			}
+			// the client connects again for the rest of its statements
+			s.Close()
+			if s, err = start(); err != nil {
+				vs.Add("harness:start", "%v", err)
+				return vs, info
+			}
+			continue
 		}
 		if errors.Is(err, pgsess.ErrTimeout) {
 			info.inconclusive = true
